@@ -9,6 +9,7 @@ import Driver.BlockOps
 import Driver.ThreadsOps
 import Driver.TocOps
 import Driver.SerializerOps
+import Driver.PipelineXOps
 import Driver.DocOps
 import Driver.BlockExtOps
 import Driver.CodecOps
@@ -23,6 +24,6 @@ import Driver.CodeOps
 
 namespace Driver
 
-def handlers : List Handler := [registryHandler, dispatchHandler, normalizeHandler, tablesHandler, blockHandler, threadsHandler, tocHandler, serializerHandler, codeHandler, pyHandler, inlineHandler, triggerHandler, extractEvHandler, attrListHandler, pipelineHandler, configHandler, codecHandler, blockExtHandler, docHandler]
+def handlers : List Handler := [registryHandler, dispatchHandler, normalizeHandler, tablesHandler, blockHandler, threadsHandler, tocHandler, serializerHandler, codeHandler, pyHandler, inlineHandler, triggerHandler, extractEvHandler, attrListHandler, pipelineHandler, configHandler, codecHandler, blockExtHandler, docHandler, pipelineXHandler]
 
 end Driver
